@@ -9,6 +9,12 @@ dump, for the lock order) over a page cache of size = #threads and #threads-1.  
 * every thread's event sequence is accepted by the model's per-thread automaton
   (Protocol.thread_trace_ok, extracted): references taken are given back, insert/discard only on
   held entries, every cache entry point runs with cache_lock held by the caller;
+* every bracketed public API call takes shared->lock in the mode of its class (read / write /
+  write after read; ApiLock.api_req, api_call_ok): readers at least for reading, every mutating
+  entry point (kdump_set_attr, kdump_set_sub_attr, kdump_attr_ref_set, kdump_clone, kdump_free,
+  kdump_open_fdset) exclusively; some threads write attributes with side effects (cache.size,
+  file.mmap_policy, arch.page_size, file.zero_excluded) through all three write entry points
+  while the other clones read;
 * the locks are acquired in an order that is acyclic over all threads (LockOrder.acyclicb);
 * a refused read (BUSY) only happens while at least `cap` references are outstanding, and never
   when the cache has as many slots as there are threads;
@@ -119,6 +125,10 @@ def judge(run, case, line, model_verdict):
     if not acyclic(lock_edges(p["threads"])):
         return ("spec", "locks are acquired in a cyclic order: %s" % lock_edges(p["threads"]),
                 "conc lock-order-cycle")
+    if model_verdict is not None and model_verdict.startswith("ApiLockClass"):
+        return ("spec", "a public entry point does not take shared->lock in the mode its class requires "
+                "(Conc/ApiLock.v api_table): " + model_verdict,
+                "conc api-lock-class " + " ".join(model_verdict.split()[1:3]))
     if model_verdict is not None and model_verdict != "ok":
         return ("spec", "a thread's events are not a word of the model's per-thread automaton: " + model_verdict,
                 "conc trace-not-accepted " + model_verdict.split()[0])
@@ -187,7 +197,8 @@ def check(run):
             for n in (2, 3, 4, 6, 8):
                 for cap in (n, n - 1):
                     for _ in range(reps):
-                        flags = run.rng.choice([1, 1, 3, 5])
+                        # 1 prevalidate, 2 queries, 4 shared xlat, 8 attribute writes, 16 main thread recorded
+                        flags = run.rng.choice([1, 3, 5, 19, 11, 27])
                         cases.append(("R %s %d %d %d %d %d" % (d["files"][0], n, cap, 50 if quick else 200,
                                                                run.rng.randrange(1 << 16), flags), d))
         # LKCD: reads and max_pfn queries from all threads (lock order cache_lock / pfn_block_mutex)
